@@ -638,7 +638,7 @@ static std::string D(double x) { return hex_dbl(x); }
 static std::string DV(double x, double y) { return D(x) + " " + D(y); }
 static double coord(Rng& g_) { return g_.chance(70) ? (double)g_.range(-8, 8) : (double)g_.range(-32, 32) / 4.0; }
 static Ang angle(Rng& g_) { return g_.chance(25) ? ANGLES[0] : ANGLES[g_.below(sizeof ANGLES / sizeof ANGLES[0])]; }
-static Tag gen_tag(Rng& g_) { return make_tag((uint32_t)g_.range(1, 3), 0); }
+static Tag gen_tag(Rng& g_) { return make_tag((uint32_t)g_.range(1, 3), (uint32_t)g_.below(2)); }  // same layer, two types: a filter must compare both halves
 
 static std::string gen_rep(Rng& g_, int pct) {
     if (!g_.chance(pct)) return "N";
@@ -859,7 +859,7 @@ int main(int argc, char** argv) {
             for (int ar = 0; ar < 2; ar++) {
                 for (int di = 0; di < 5; di++) {
                     if (!g_.chance(thorough ? 45 : 35)) continue;
-                    std::string filter = g_.chance(35) ? hex_u64(make_tag((uint32_t)g_.range(1, 3), 0)) : "-";
+                    std::string filter = g_.chance(35) ? hex_u64(make_tag((uint32_t)g_.range(1, 3), (uint32_t)g_.below(2))) : "-";
                     long cell = g_.chance(85) ? 0 : 1;
                     std::string q = " Q " + std::to_string(cell) + " " + whats[wi] + " " + std::to_string(ar) + " " + std::to_string(depths[di]) + " " + filter + " 0";
                     run_case(out, "get", pre + q);
@@ -870,7 +870,7 @@ int main(int argc, char** argv) {
             for (int flat = 1; flat <= 2; flat++) {
                 for (int ar = 0; ar < 2; ar++) {
                     if (!g_.chance(50)) continue;
-                    std::string filter = g_.chance(25) ? hex_u64(make_tag((uint32_t)g_.range(1, 3), 0)) : "-";
+                    std::string filter = g_.chance(25) ? hex_u64(make_tag((uint32_t)g_.range(1, 3), (uint32_t)g_.below(2))) : "-";
                     std::string q = std::string(" Q 0 ") + whats[wi] + " " + std::to_string(ar) + " " + std::to_string(depths[g_.below(3)]) + " " + filter + " " + std::to_string(flat);
                     run_case(out, "get", pre + q);
                     run_case(out, "shapes", pre + q);
